@@ -1,15 +1,51 @@
 package faults
 
 import (
+	"fmt"
+	"strings"
 	"testing"
+	"time"
 
 	"verif/harness/awsx"
 	"verif/harness/ev"
+	"verif/harness/sessprog"
+	"verif/harness/world"
 )
 
 // schedulesForC09 runs the leak ledger over a sample of the duplicate-key schedules.
 func schedulesForC09(t *testing.T, r *ev.Run) {
 	exploreSchedules(t, r, "C09", func(c schedCell) bool { return c.nproc == 2 }, ev.Pick(60, 3000), false)
+}
+
+// sessionCacheLedger runs the session-cache programs (get/use/close/advance/factory close with several holders of
+// one cached session) and audits the secret ledger afterwards: evicted or expired sessions must release their
+// keys exactly once, only after the last holder closed, and nothing may touch them afterwards.
+func sessionCacheLedger(t *testing.T, r *ev.Run) {
+	L := ev.Pick(4, 5)
+	for _, pol := range []string{"", "lru"} {
+		for _, size := range []int{1, 2} {
+			journal(fmt.Sprintf("C09 session-cache programs policy=%q size=%d", pol, size))
+			if p := inBubble(t, func() {
+				w := world.New("memguard")
+				defer w.Close()
+				time.Sleep(17 * time.Second)
+				sessprog.EnumeratePrograms(L, func(prog []sessprog.Op) {
+					_, _, st := sessprog.RunProgram(w, pol, size, prog, time.Hour)
+					r.Eval(1)
+					r.Count("session_cache_programs", 1)
+					if st[2] >= 2 {
+						r.Distinct("sessprog|" + pol + fmt.Sprint(size) + sessprog.ProgString(prog))
+					}
+					for _, f := range sessprog.LastLedger {
+						kind, msg, _ := strings.Cut(f, "|")
+						r.Violation("session-cache-"+kind, fmt.Sprintf("session cache %q size %d program [%s]: %s", pol, size, sessprog.ProgString(prog), msg), map[string]any{"program": sessprog.ProgString(prog)})
+					}
+				})
+			}); p != nil {
+				r.Violation("panic:session-cache-programs", fmt.Sprint(p), nil)
+			}
+		}
+	}
 }
 
 // awsPlaintexts checks that data-key plaintexts obtained from the (fake) cloud KMS are wiped by both plug-ins.
